@@ -109,7 +109,13 @@ func (p *Core) execGenesisRestart(op sim.Op) {
 		ex := lost[sig]
 		w.Violate("C44", "state-not-preserved-by-export-import", sig, fmt.Sprintf("%s export/import at height %d: %d keys %s, e.g. %s", c.ID, c.Height, len(ex), sig, ex[0]))
 	}
-	if len(lost) > 0 && len(w.Viol) == 0 {
+	knownLoss := false
+	for sig := range lost {
+		if w.Known != nil && w.Known.Matches("C44", sig) {
+			knownLoss = true
+		}
+	}
+	if knownLoss && len(w.Viol) == 0 {
 		// every loss is a listed known finding: the restarted chain no longer has the state the
 		// model (correctly) expects, so this world ends here instead of reporting the consequences
 		w.StopQuietly("state lost by a known export/import defect")
